@@ -37,6 +37,15 @@ CHECKS = {
             "trusts the content model's expected-value rules (strings after NFC, NAME[a,b] => NAME<a,b>, multi-word joined "
             "by one space); comment attachment is treated as layout; spellings limited to the documented freedoms",
             "DESIGN.md §3 C02"),
+    "C03": ("exploration",
+            "metamorphic relation over generated respellings + independent strict-profile recogniser as validity predicate",
+            "Each generated document is rendered canonically and in several seeded lenient spellings with an independent "
+            "choice at every rewrite site; all must canonicalise to identical bytes (Python API and octave_write "
+            "lenient=true), and a line-level recogniser written from the property statement must accept the result "
+            "(Unicode operators only, no space around ::, 2 spaces per level from its own container stack, envelope "
+            "lines, no tabs/trailing whitespace, single final newline). Sampled, not exhaustive.",
+            "only documented freedoms are rendered; frontmatter and zone content are opaque to the recogniser",
+            "DESIGN.md §3 C03"),
 }
 
 NOT_YET = {
